@@ -739,6 +739,12 @@ func eqTerm(a, b *val) (string, error) {
 		if a.w != b.w {
 			return "", fmt.Errorf("comparison width mismatch %d vs %d", a.w, b.w)
 		}
+		if a.k == kArr && a.arrRow != "" && b.arrRow != "" && a.arrRow != b.arrRow && a.arrOff == b.arrOff {
+			// the same byte array at the same address in two heaps: equal rows imply equal contents, so the disjunction is
+			// equivalent to the content equality; it lets the solver discharge frame facts (`x.f == old(x.f)`) at the level
+			// of whole rows instead of byte by byte through every havoc
+			return fmt.Sprintf("(or (= %s %s) (= %s %s))", a.arrRow, b.arrRow, a.t[0], b.t[0]), nil
+		}
 		return fmt.Sprintf("(= %s %s)", a.t[0], b.t[0]), nil
 	case kBool, kOpaque:
 		return fmt.Sprintf("(= %s %s)", a.t[0], b.t[0]), nil
